@@ -33,6 +33,13 @@ LAYOUTS = [
     "a (memo):\n    | b\n",
     "a[T] (memo): b\n    | c\n",
     "a: (b c)+ [d]? ((e))\n",
+    # empty brackets inside actions and annotations
+    "start: a { {} }\n  | b { f(x, {}, []) }\n",
+    "start[Dict[str, List[int]]]: x[T]=a { dict(cache={}) }\n",
+    # groups that begin and end with a group
+    "start: x ((a | b) c (d | e)) y\n",
+    "start: ((a b) | (c d)) e !((a) (b)) c\n",
+    "start: ','.((a b) (c d))+ ((a))* [((b) (c))]\n",
 ]
 
 
@@ -302,6 +309,7 @@ def run(chk: common.Check, tier: str):
                 chk.violation(f"reader quirk {fid}", {"grammar": text}, True)
     # ---- round trip on the implementation
     good = []
+    rejected = []
     for t in texts:
         try:
             g = read_real(t)
@@ -310,6 +318,7 @@ def run(chk: common.Check, tier: str):
         chk.count()
         if not g:
             chk.bump("not readable (generator produced invalid text, or a probe)")
+            rejected.append(t)
             continue
         d1 = g2c.dump(g)
         p = printed(g)
@@ -360,6 +369,24 @@ def run(chk: common.Check, tier: str):
         if inh is not None:
             chk.bump("explored grammars inside the hypotheses of C09_print_then_read", len(cases) - len(inh))
             chk.bump("explored grammars outside them (f-strings in actions, standalone-untokenizable texts, ...)", len(inh))
+    # ---- texts the shipped reader rejects: the reference reader must reject them too (a valid text must not be refused)
+    rcases, rtexts = [], []
+    for t in rejected:
+        try:
+            rcases.append(tl(gtoks(t)))
+            rtexts.append(t)
+        except Exception:       # noqa  (the host tokenizer itself refuses the text)
+            chk.bump("rejected text: not tokenizable")
+    if rcases:
+        bad = common.run_cases(chk, "rej", REF_PRELUDE, "list gtok", rcases,
+                               "fun ts => match read_grammar (read_fuel ts) ts with Ok _ _ => false | _ => true end",
+                               shard=50, timeout=900)
+        if bad is not None:
+            for i in bad[:3]:
+                chk.violation("the shipped reader rejects grammar text that the reference reader of the round-trip theorem reads",
+                              {"grammar": rtexts[i]}, True)
+            chk.oblige(f"the {len(rcases)} explored texts that the shipped GrammarParser rejects are rejected by the reference "
+                       "reader as well", not bad, json.dumps([rtexts[i][:300] for i in bad[:3]]))
     # ---- K-read: the model of the generated meta-parser reads the same structure as the shipped parser
     d = common.gen_dir("C09")
     try:
